@@ -1,8 +1,10 @@
 package main
 
 import (
+	"encoding/binary"
 	"fmt"
 	"hash/fnv"
+	"hash/maphash"
 	"math"
 	"sort"
 	"strconv"
@@ -124,6 +126,10 @@ func (c *ctx) findingf(class, format string, a ...any) {
 		return
 	}
 	c.seen[class] = true
+	if _, ok := c.col.first[class]; ok {
+		c.col.hits[class]++
+		return
+	}
 	c.col.add(class, fmt.Sprintf(format, a...), c.hist)
 }
 
@@ -176,12 +182,35 @@ func sameStrings(a, b []string) bool {
 	return true
 }
 
+// hash128 is the deterministic hash used for the model digest (short inputs).
 func hash128(k string) [2]uint64 {
 	a := fnv.New64a()
 	a.Write([]byte(k))
 	b := fnv.New64()
 	b.Write([]byte(k))
 	return [2]uint64{a.Sum64(), b.Sum64()}
+}
+
+// stateKey compresses the long canonical state description (private-state dump
+// plus model state) to 128 bits with two independently seeded maphash
+// functions. It is used for deduplication only (the seeds differ from process
+// to process, which cannot change which states are equal).
+var seedA, seedB = maphash.MakeSeed(), maphash.MakeSeed()
+
+func stateKey(parts ...string) string {
+	var ha, hb maphash.Hash
+	ha.SetSeed(seedA)
+	hb.SetSeed(seedB)
+	for _, p := range parts {
+		ha.WriteString(p)
+		ha.WriteByte(0)
+		hb.WriteString(p)
+		hb.WriteByte(0)
+	}
+	var out [16]byte
+	binary.LittleEndian.PutUint64(out[:8], ha.Sum64())
+	binary.LittleEndian.PutUint64(out[8:], hb.Sum64())
+	return string(out[:])
 }
 
 func containsID(ids []int64, id int64) bool {
